@@ -1,7 +1,7 @@
 SPECIFICATION Spec
 CONSTANTS
   K = 2
-  Variant = "fixed"
+  Variant = {}
   Emit = FALSE
 INVARIANTS ImplValid ImplHeaders ImplReqOk
 CHECK_DEADLOCK FALSE
